@@ -1753,7 +1753,7 @@ func (c *dedicatedClusterClient) Close() {
 		p.close <- ErrClosing
 		close(p.close)
 	}
-	if c.wire != nil {
+	if c.wire != nil && !c.mark { // once recycled, the wire belongs to the pool or to another caller
 		c.wire.Close()
 	}
 	c.mu.Unlock()
